@@ -23,7 +23,7 @@ ANCHORS = ["decaylanguage.utils.particleutils:charge_conjugate_name", "decaylang
 WORKERS = {"quick": 4, "thorough": 16}
 WTESTS = {"groups": ['conj'], "tests": ['tests/decay', 'tests/utils', 'tests/dec/test_dec.py']}
 REQUIRED = {"kind:has-antiparticle": 300, "kind:self-conjugate": 50, "kind:in-table-no-conjugate": 10, "kind:unknown-label": 50,
-            "pdg-route": 500, "multiplicity>=4": 20, "metadata>=2-user-keys": 20, "cross-layer-file": 10, "cache-cold": 1, "cache-evicting": 1,
+            "pdg-route": 500, "multiplicity>=4": 20, "metadata>=2-user-keys": 20, "cross-layer-file": 10, "cross-layer-file-with-copy": 5, "returned-value-mutated-then-again": 50, "cache-cold": 1, "cache-evicting": 1,
             "C04.name.matches_table_oracle": 1000, "C04.daughters.each_particle_with_multiplicity": 100, "C04.mode.bf_and_metadata_kept": 100}
 EXHAUSTIVE_NOTE = "every EvtGen name and every PDG name of the installed tables is visited by every worker subset union (sharded), both cache states"
 ASSUMPTIONS = ["the csv data tables of the installed particle package are the ground truth for IDs, names and self-conjugacy"]
@@ -102,6 +102,19 @@ def check_mode(ctx, fs, bf, meta, pdg):
         ctx.mon("C04.direct.daughters")
         if Counter(dict(dd)) != exp or len(dd) != sum(fs.values()):
             ctx.violate("conj-daughters:direct", f"conjugate of {fs} is {dict(dd)}, expected {dict(exp)}", wit)
+    if ok and ctx.rng.random() < 0.5:
+        # the value returned is the caller's: changing it in place must not show in a later conjugation of an equal final state
+        ctx.hit("returned-value-mutated-then-again")
+        try:
+            first = next(iter(dd), None)
+            if first is not None:
+                dd[first] += 3
+            dd["stray"] = 1
+        except Exception:  # noqa: BLE001
+            pass
+        ok3, dd2 = ctx.guard("conj-daughters", wit, lambda: DaughtersDict(dict(fs)).charge_conjugate(pdg_name=pdg))
+        if ok3 and Counter(dict(dd2)) != exp:
+            ctx.violate("conj-daughters:depends-on-earlier-results", f"second conjugation of {fs} gives {dict(dd2)}, expected {dict(exp)}", wit)
     ok, dm = ctx.guard("conj-mode", wit, lambda: DecayMode(bf, dict(fs), **{k: v for k, v in meta.items()}).charge_conjugate(pdg_name=pdg))
     if ok:
         ctx.mon("C04.direct.mode")
@@ -124,6 +137,10 @@ def check_file(ctx, mother, lines):
 
     cm = names.conj(mother)
     text = f"Decay {mother}\n" + "".join(f"{bf} {' '.join(ds)} PHSP;\n" for bf, ds in lines) + f"Enddecay\nCDecay {cm}\n"
+    copied = ctx.rng.random() < 0.4
+    if copied:      # a copy of the table, conjugated as well (ChargeConj pairs the copy with its declared conjugate)
+        ctx.hit("cross-layer-file-with-copy")
+        text += f"CopyDecay MyCp {mother}\nChargeConj MyCp MyCpbar\nCDecay MyCpbar\n"
     wit = {"kind": "file", "mother": mother, "lines": lines}
     ctx.case({"file": text}, nontrivial=True, workload="gen-file")
     ctx.hit("cross-layer-file")
@@ -139,9 +156,18 @@ def check_file(ctx, mother, lines):
     if not ok:
         return
     ctx.mon("C04.direct.cross-layer")
-    if p.list_decay_mother_names() != [mother, cm]:
-        ctx.violate("cdecay-file:mothers", f"mothers {p.list_decay_mother_names()} expected {[mother, cm]}", wit)
+    expm = [mother, "MyCp", *sorted([cm, "MyCpbar"])] if copied else [mother, cm]
+    if p.list_decay_mother_names()[:1] != [mother] or sorted(p.list_decay_mother_names()) != sorted(expm):
+        ctx.violate("cdecay-file:mothers", f"mothers {p.list_decay_mother_names()} expected {expm}", wit)
         return
+    if copied:
+        def cj(d):
+            return {"MyCp": "MyCpbar", "MyCpbar": "MyCp"}.get(d, names.conj(d))
+
+        for tab in (cm, "MyCpbar"):
+            g2 = p.list_decay_modes(tab)
+            if g2 != [[cj(d) for d in ds] for _, ds in lines]:
+                ctx.violate("cdecay-file:copy-and-source-both-conjugated", f"{tab}: {g2} expected {[[cj(d) for d in ds] for _, ds in lines]}", wit)
     got = p.list_decay_modes(cm)
     if len(got) != len(lines):
         ctx.violate("cdecay-file:lines", f"{len(got)} conjugated lines for {len(lines)} source lines", wit)
